@@ -4,6 +4,7 @@ import ConfModel.Spec.WireChecks
 import ConfModel.Model.ConnectJson
 import ConfModel.Spec.ContentCoding
 import ConfModel.Spec.ConnectJson
+import ConfModel.Spec.BinMeta
 namespace ConfModel.Driver.C13
 open Lean ConfModel.Driver ConfModel.WireChecks ConfModel.WireChecksSpec
 open ConfModel.ServerTimeout (Bytes)
@@ -354,6 +355,26 @@ def handle : Handler := fun op inp impl =>
     { agree := agree && renderAgree && (detailsBin.isSome == (nDetails > 0)), holds := holds, nontrivial := hyp,
       model := Json.mkObj [("block", hex mBlock), ("examined", model)], why := why,
       cls := if !hyp then "hypothesis-violated" else if noEdgeSpace msg then "plain" else "edge-space" }
+  | "binmd" =>
+    let md : List (Bytes × List Bytes) := (arr (field inp "md")).map fun e =>
+      (unhex (str (field e "k")), (strList (field e "v")).map unhex)
+    let fb := strList (field impl "fb")
+    let cls (f : BinMeta.BinFb) : String := match f with | .padded => "bm:padded" | .invalid => "bm:invalid"
+    let ofCls (c : String) : Option BinMeta.BinFb :=
+      if c == "bm:padded" then some .padded else if c == "bm:invalid" then some .invalid else none
+    let m := BinMeta.checkBinaryMetadata md
+    let known := fb.filterMap ofCls
+    let own := field impl "own"
+    -- what ConvertMetadataToProtoHeader wrote for the raw metadata is accepted silently
+    let ownOk := isNull own || (strList own).isEmpty
+    let ascii := md.all (fun e => isASCII e.1)
+    let holds := known.length == fb.length && BinMetaSpec.binHolds md known && ownOk
+    { agree := !ascii || m.map cls == fb, holds := !ascii || holds, nontrivial := !fb.isEmpty || !isNull own,
+      model := toJson (m.map cls),
+      why := if holds then "" else
+        if !ownOk then s!"checkBinaryMetadata reports {strList own} on -bin values written by the repository's own encoder"
+        else s!"binary metadata: examined values {(BinMetaSpec.examinedValues md).map hex}, feedback {fb}",
+      cls := if !isNull own then "own" else if (BinMetaSpec.examinedValues md).all BinMetaSpec.unpaddedB64 then "well-formed" else "malformed" }
   | "cerr" | "cend" => judgeJSON (op == "cend") (str (field inp "kind")) impl
   | "zcerr" | "zcend" =>
     -- the same judgement as cerr / cend, on the feedback of the complete exchange
